@@ -456,7 +456,11 @@ class SqlImpl(TableImpl):
                 for name, uid, val in zip(nd.names, nd.uuids, nd.values, strict=True)
             }
             query.group_by.extend(col._uuid for col in query.partition_by if not types.is_const(col.dtype()))
-            query.select = [col._uuid for col in query.partition_by] + nd.uuids
+            # grouping columns overwritten by an aggregate are not part of the result
+            new_names = set(nd.names)
+            query.select = [
+                col._uuid for col in query.partition_by if sqa_expr[col._uuid].name not in new_names
+            ] + nd.uuids
             query.partition_by = []
             query.order_by.clear()
 
